@@ -32,6 +32,19 @@ reg(Prop('C01', [g(gen.gen_C01)], 'writer byte image vs L3 model and L1 referenc
 reg(Prop('C02', [g(gen.gen_C02)], 'reader histories vs L3 model and L1 reference'))
 reg(Prop('C03', [g(gen.gen_C03)], 'code round trips at offsets, all reader/writer kinds'))
 reg(Prop('C04', [g(gen.gen_C04)], 'bytes written vs published codewords (Dsi.Spec)'))
+def gen_C05_ctx(rng, tier, ctx):
+    # ask the implementation which tables its reader constructors flag as beyond their look-ahead
+    kinds = [('buf%d' % w, 'TB diag buf %d' % w) for w in (8, 16, 32, 64)] + [('bit', 'TB diag bit')]
+    diag = {}
+    if ctx.get('harness'):
+        ans = vlib.run_lines(ctx['harness'], [q for _, q in kinds], 60)
+        for (k, _), a in zip(kinds, ans):
+            diag[k] = set() if a in ('-', '') else set(a.split(','))
+    lines = [q for _, q in kinds]
+    return lines + gen.gen_C05(rng, tier, diag)
+
+
+reg(Prop('C05', [gen_C05_ctx], 'table-driven vs bit-by-bit coding: every table index at alignments, strict tails, boundary values; constructor diagnostics'))
 reg(Prop('C07', [g(gen.gen_C07)], 'positions and seeks'))
 reg(Prop('C08', [g(gen.gen_C08)], 'bulk copies with continuations'))
 reg(Prop('C09', [g(gen.gen_C09)], 'truncated strict streams vs zero-extended'))
@@ -41,6 +54,37 @@ reg(Prop('C13', [g(gen.gen_C13)], 'in-memory word streams vs array+cursor'))
 reg(Prop('C14', [g(gen.gen_C14)], 'counting / tracing wrappers vs bare streams'))
 reg(Prop('C17', [g(gen.gen_C17)], 'zig-zag maps, all widths'))
 reg(Prop('C18', [g(gen.gen_C18)], 'byte-level VByte vs bit-stream VByte and the published code'))
+
+
+def gen_C19(rng, tier, ctx):
+    import re
+    lines = []
+    sub = 'quick'
+    for gfn, frac in ((gen.gen_C01, 0.15), (gen.gen_C03, 0.3), (gen.gen_C04, 0.1), (gen.gen_C08, 1.0), (gen.gen_C12, 0.5), (gen.gen_C02, 0.1)):
+        ls = gfn(rng, sub)
+        if tier == 'quick':
+            ls = rng.sample(ls, int(len(ls) * frac))
+        lines += ls
+    # restrict to clean arguments: mask every raw field to its width
+    def clean(m):
+        v, n = int(m.group(1), 16), int(m.group(2))
+        return 'wb x%x %d' % (v & ((1 << n) - 1) if n < 64 else v, n)
+    lines = [re.sub(r'wb x([0-9a-f]+) (\d+)', clean, l) for l in lines]
+    # the argument check itself: every width, every single dirty bit at or above it
+    for e in gen.ES:
+        for ww in gen.WW:
+            for n in range(0, 65):
+                base = rng.getrandbits(n) if n else 0
+                lines.append('S e=%s ww=%d :: wb x%x %d ; wf ; wd' % (e, ww, base, n))
+                for b in range(n, 64):
+                    if tier == 'quick' and rng.random() > 0.25:
+                        continue
+                    lines.append('S e=%s ww=%d :: wb x3 2 ; wb x%x %d ; wf ; wd' % (e, ww, base | (1 << b), n))
+    return lines
+
+
+ALL_BUILDS = tuple((f, p) for p in ('release', 'dev') for f in ((), ('checks',), ('no_copy_impls',), ('checks', 'no_copy_impls')))
+reg(Prop('C19', [gen_C19], 'the same scripts on every feature set x build profile; argument check fires iff dirty', builds=ALL_BUILDS, timeout=300))
 
 
 def gen_lines(prop, tier, seed, ctx):
@@ -96,13 +140,16 @@ def run_check(pid, tier, seed, replay, t0, skip_proofs=False):
         for gline in gate:
             broken.append('forbidden construct: ' + gline)
         log('[%s] proofs: %d/%d discharged' % (pid, len(aud['discharged']), len(aud['obligations'])))
-    # 4. harness
+    # 4. harness (all requested builds, in parallel: separate target directories)
     bins = {}
-    for feats, profile in prop.builds:
-        b = vlib.harness_bin(feats, profile)
+    from concurrent.futures import ThreadPoolExecutor as _TPE
+    with _TPE(max_workers=4) as ex:
+        futs = {(tuple(feats), profile): ex.submit(vlib.harness_bin, feats, profile) for feats, profile in prop.builds}
+    for key, fu in futs.items():
+        b = fu.result()
         if b is None:
-            broken.append('harness does not build against /repo (features=%s profile=%s)' % (','.join(feats) or 'default', profile))
-        bins[(tuple(feats), profile)] = b
+            broken.append('harness does not build against /repo (features=%s profile=%s)' % (','.join(key[0]) or 'default', key[1]))
+        bins[key] = b
     main_bin = bins.get(((), 'release')) or next((b for b in bins.values() if b), None)
     ctx = dict(tier=tier, seed=seed, harness=main_bin, driver=vlib.DRIVER, bins=bins)
     findings = []
@@ -136,15 +183,27 @@ def run_check(pid, tier, seed, replay, t0, skip_proofs=False):
         rs = random.Random(seed)
         for i in rs.sample(range(len(lines)), min(3, len(lines))):
             samples.append(dict(request=lines[i][:400], implementation=H[i][:200], model=M[i][:300]))
-        # other builds (C19): same scripts must give identical outputs
+        # other builds (C19): the same scripts on every feature set / profile; the model is told
+        # which options are compiled in (checks=1, copy=0) and must predict every build
         for key, b in bins.items():
             if b and b != main_bin:
-                H2 = vlib.run_parallel(b, lines, None, prop.timeout)
-                f2, n2, c2 = compare_all(prop, lines, H2, M, debug_build=(key[1] != 'release'))
+                toks = ''
+                if 'checks' in key[0]:
+                    toks += ' checks=1'
+                if 'no_copy_impls' in key[0]:
+                    toks += ' copy=0'
+                lines2 = [('S' + toks + l[1:]) if l.startswith('S ') else l for l in lines]
+                with ThreadPoolExecutor(max_workers=2) as ex:
+                    fh = ex.submit(vlib.run_parallel, b, lines2, None, prop.timeout)
+                    fm = ex.submit(vlib.run_parallel, vlib.DRIVER, lines2, None, prop.timeout)
+                    H2, M2 = fh.result(), fm.result()
+                f2, n2, c2 = compare_all(prop, lines2, H2, M2, debug_build=(key[1] != 'release'))
                 for f in f2:
                     f.sig = 'build=%s/%s|' % (','.join(key[0]) or 'default', key[1]) + f.sig
                 findings += f2
                 nops += n2
+                classes |= set((key,) + c for c in c2)
+                log('[%s] build %s/%s: %d scenarios, %d findings' % (pid, ','.join(key[0]) or 'default', key[1], len(lines2), len(f2)))
     # ---- verdict
     viol = [f for f in findings if f.kind == 'violation']
     fid = [f for f in findings if f.kind != 'violation']
